@@ -567,6 +567,218 @@ theorem runOp_creds (v : Variant) (c : Conn) (cr cr' : Creds) (b64 : Str → Str
     rw [heq]
     exact ⟨hf.1, hf.2.1⟩
 
+theorem stopTimer_enabled (s : Stats) (name : Str) (a b : Nat) (srv : SrvTime) (f : Bool) (st : Stats)
+    (h : s.stopTimer name a b srv f = .ok st) : st.enabled = s.enabled := by
+  simp only [Stats.stopTimer] at h
+  by_cases he : s.enabled = true
+  · simp only [he, Bool.not_true, Bool.false_eq_true, if_false] at h
+    split at h
+    · simp [throw, throwThe, MonadExceptOf.throw] at h
+    · by_cases hsus : (s.get name).srvSuspended = true
+      · simp only [hsus, if_true, pure, Except.pure, Except.ok.injEq] at h
+        rw [← h, he]
+      · cases srv with
+        | str t => simp [hsus, throw, throwThe, MonadExceptOf.throw] at h
+        | none =>
+          simp only [hsus, Bool.false_eq_true, if_false, pure, Except.pure, Except.ok.injEq] at h
+          rw [← h, he]
+        | num t =>
+          simp only [hsus, Bool.false_eq_true, if_false, pure, Except.pure, Except.ok.injEq] at h
+          rw [← h, he]
+  · simp only [Bool.not_eq_true] at he
+    simp only [he, Bool.not_false, if_true, pure, Except.pure, Except.ok.injEq] at h
+    rw [← h]
+
+/-! ### disabled recorders are silent -/
+
+def disabledRec : Recorder → Prop
+  | .log r => r.enabled = false
+  | .tcr r => r.enabled = false
+
+/-- a staged call that emits nothing, raises nothing and keeps recorders disabled, looped over disabled recorders -/
+theorem forRecs_silent (f : Recorder → StageRes)
+    (h : ∀ r, disabledRec r → (f r).2.1 = [] ∧ (f r).2.2 = none ∧ disabledRec (f r).1) :
+    ∀ rs : List Recorder, (∀ r ∈ rs, disabledRec r) →
+      (forRecs f rs).2.1 = [] ∧ (forRecs f rs).2.2 = none ∧ ∀ r ∈ (forRecs f rs).1, disabledRec r := by
+  intro rs
+  induction rs with
+  | nil => intro _; simp [forRecs]
+  | cons r rs ih =>
+    intro hp
+    have hr := h r (hp r (by simp))
+    have ih' := ih (fun x hx => hp x (by simp [hx]))
+    simp only [forRecs]
+    rcases hf : f r with ⟨r', ev, e⟩
+    rw [hf] at hr
+    simp only at hr
+    obtain ⟨hev, he, hd⟩ := hr
+    subst hev; subst he
+    simp only
+    rcases hrs : forRecs f rs with ⟨rs', ev', e'⟩
+    rw [hrs] at ih'
+    simp only at ih' ⊢
+    refine ⟨by simp [ih'.1], ih'.2.1, ?_⟩
+    intro x hx
+    simp only [List.mem_cons] at hx
+    rcases hx with rfl | hx
+    · exact hd
+    · exact ih'.2.2 x hx
+
+theorem resetOne_silent (pull : Bool) (r : Recorder) (h : disabledRec r) :
+    (resetOne pull r).2.1 = [] ∧ (resetOne pull r).2.2 = none ∧ disabledRec (resetOne pull r).1 := by
+  cases r with
+  | log l => simp only [disabledRec] at h; simp [resetOne, disabledRec, h]
+  | tcr t => simp only [disabledRec] at h; simp [resetOne, disabledRec, TcrRec.reset, h]
+
+theorem stageArgsOne_silent (m : Str) (kw : List Kwarg) (r : Recorder) (h : disabledRec r) :
+    (stageArgsOne m kw r).2.1 = [] ∧ (stageArgsOne m kw r).2.2 = none ∧ disabledRec (stageArgsOne m kw r).1 := by
+  cases r with
+  | log l => simp only [disabledRec] at h; simp [stageArgsOne, LogRec.stageArgs, disabledRec, h]
+  | tcr t => simp only [disabledRec] at h; simp [stageArgsOne, disabledRec, h]
+
+theorem stageRequestOne_silent (hs : List Hdr) (t : Str) (b : Bytes) (r : Recorder) (h : disabledRec r) :
+    (stageRequestOne hs t b r).2.1 = [] ∧ (stageRequestOne hs t b r).2.2 = none ∧
+    disabledRec (stageRequestOne hs t b r).1 := by
+  cases r with
+  | log l =>
+    simp only [disabledRec] at h
+    simp [stageRequestOne, LogRec.stageHttpRequest, LogRec.stageHttpResponse1, disabledRec, h, pure, Except.pure]
+  | tcr t => simp only [disabledRec] at h; simp [stageRequestOne, disabledRec, h]
+
+theorem stageResponse1One_silent (resp : HttpResp) (r : Recorder) (h : disabledRec r) :
+    (stageResponse1One resp r).2.1 = [] ∧ (stageResponse1One resp r).2.2 = none ∧
+    disabledRec (stageResponse1One resp r).1 := by
+  cases r with
+  | log l => simp only [disabledRec] at h; simp [stageResponse1One, LogRec.stageHttpResponse1, disabledRec, h]
+  | tcr t => simp only [disabledRec] at h; simp [stageResponse1One, disabledRec, h]
+
+theorem stageResponse2One_silent (v : Variant) (b : Bytes) (r : Recorder) (h : disabledRec r) :
+    (stageResponse2One v b r).2.1 = [] ∧ (stageResponse2One v b r).2.2 = none ∧
+    disabledRec (stageResponse2One v b r).1 := by
+  cases r with
+  | log l =>
+    simp only [disabledRec] at h
+    simp only [stageResponse2One, LogRec.stageHttpResponse2, h, Bool.false_and, Bool.false_eq_true, if_false]
+    split <;> simp [Pywbem.Model.Observer.ofExcept, disabledRec, h, pure, Except.pure]
+  | tcr t => simp only [disabledRec] at h; simp [stageResponse2One, disabledRec, h]
+
+theorem stageResultOne_silent (v : Variant) (ret : Option RetInfo) (exc : Option Raised) (r : Recorder)
+    (h : disabledRec r) :
+    (stageResultOne v ret exc r).2.1 = [] ∧ (stageResultOne v ret exc r).2.2 = none ∧
+    disabledRec (stageResultOne v ret exc r).1 := by
+  cases r with
+  | log l =>
+    simp only [disabledRec] at h
+    simp [stageResultOne, LogRec.stageResult, Pywbem.Model.Observer.ofExcept, disabledRec, h, pure, Except.pure]
+  | tcr t => simp only [disabledRec] at h; simp [stageResultOne, disabledRec, h]
+
+theorem wbemRequest_silent (v : Variant) (recs : List Recorder) (creds : Creds) (b64 : Str → Str) (core : Core)
+    (req : Req) (listener : Bool) (hd : ∀ r ∈ recs, disabledRec r) :
+    (wbemRequest v recs creds b64 core req listener).events = [] ∧
+    ∀ r ∈ (wbemRequest v recs creds b64 core req listener).recorders, disabledRec r := by
+  generalize hbody : xmlDecl ++ encode req.data = body
+  generalize htarget : (if listener then ([] : Str) else "/cimom".toList) = target
+  have h1 := forRecs_silent (stageRequestOne req.headers target body)
+    (fun r hr => stageRequestOne_silent req.headers target body r hr) recs hd
+  rcases hf1 : forRecs (stageRequestOne req.headers target body) recs with ⟨recs1, ev1, e1⟩
+  rw [hf1] at h1
+  simp only at h1
+  obtain ⟨hev1, he1, hq1⟩ := h1
+  subst hev1; subst he1
+  simp only [wbemRequest, hbody, htarget, hf1]
+  cases core.send body (req.headers ++ if listener = true then [] else authHeader b64 creds) with
+  | raised e => exact ⟨rfl, hq1⟩
+  | response resp =>
+    have h2 := forRecs_silent (stageResponse1One resp) (fun r hr => stageResponse1One_silent resp r hr) recs1 hq1
+    rcases hf2 : forRecs (stageResponse1One resp) recs1 with ⟨recs2, ev2, e2⟩
+    rw [hf2] at h2
+    simp only at h2
+    obtain ⟨hev2, he2, hq2⟩ := h2
+    subst hev2; subst he2
+    simp only [hf2]
+    by_cases hst : resp.status = 200
+    · simp only [hst, ne_eq, not_true_eq_false, if_false]
+      cases core.badContentType resp with
+      | some e => simp only []; exact ⟨rfl, hq2⟩
+      | none =>
+        have h3 := forRecs_silent (stageResponse2One v resp.body)
+          (fun r hr => stageResponse2One_silent v resp.body r hr) recs2 hq2
+        rcases hf3 : forRecs (stageResponse2One v resp.body) recs2 with ⟨recs3, ev3, e3⟩
+        rw [hf3] at h3
+        simp only at h3
+        obtain ⟨hev3, he3, hq3⟩ := h3
+        subst hev3; subst he3
+        simp only []
+        exact ⟨rfl, hq3⟩
+    · simp only [ne_eq, hst, not_false_eq_true, if_true]
+      exact ⟨rfl, hq2⟩
+
+theorem tryBody_silent (v : Variant) (c : Conn) (b64 : Str → Str) (core : Core) (listener : Bool)
+    (hd : ∀ r ∈ c.recorders, disabledRec r) :
+    (tryBody v c b64 core listener).events = [] ∧
+    ∀ r ∈ (tryBody v c b64 core listener).conn.recorders, disabledRec r := by
+  cases hp : core.prep with
+  | error e => simp only [tryBody, hp]; exact ⟨by first | rfl | trivial, hd⟩
+  | ok req =>
+    obtain ⟨hev, hq⟩ := wbemRequest_silent v c.recorders c.info.creds b64 core req listener hd
+    simp only [tryBody, hp]
+    cases hr : (wbemRequest v c.recorders c.info.creds b64 core req listener).result with
+    | error e => exact ⟨hev, hq⟩
+    | ok p =>
+      obtain ⟨reply, srv⟩ := p
+      simp only []
+      cases core.parse reply <;> exact ⟨hev, hq⟩
+
+theorem finallyPart_silent (v : Variant) (call : Call) (b : OpResult) (hev : b.events = [])
+    (hd : ∀ r ∈ b.conn.recorders, disabledRec r) : (finallyPart v call [] b).events = [] := by
+  simp only [finallyPart]
+  cases b.conn.stats.stopTimer call.method b.conn.lastRequestLen b.conn.lastReplyLen b.conn.lastSrvTime
+      (failedOf b.outcome) with
+  | error e => simp [hev]
+  | ok st =>
+    simp only []
+    by_cases he : b.conn.recorders.isEmpty = true
+    · simp [he, hev]
+    · simp only [he, Bool.false_eq_true, if_false]
+      have h3 := forRecs_silent (stageResultOne v (retOf call b.outcome) (excOf b.outcome))
+        (fun r hr => stageResultOne_silent v _ _ r hr) b.conn.recorders hd
+      rcases hf : forRecs (stageResultOne v (retOf call b.outcome) (excOf b.outcome)) b.conn.recorders with
+        ⟨recs3, ev3, e3⟩
+      rw [hf] at h3
+      simp only at h3
+      obtain ⟨hev3, he3, _⟩ := h3
+      subst hev3; subst he3
+      simp [hev]
+
+/-- disabled recorders (recorder.disable() / operation_recorder_enabled = False) emit nothing during an operation,
+    whatever the arguments, the responses and the code variant -/
+theorem runOp_silent (v : Variant) (c : Conn) (b64 : Str → Str) (call : Call) (core : Core)
+    (hd : ∀ r ∈ c.recorders, disabledRec r) : (runOp v c b64 call core).events = [] := by
+  have hpro : (prologue c call).2.1 = [] ∧ ∀ r ∈ (prologue c call).1, disabledRec r := by
+    simp only [prologue]
+    by_cases he : c.recorders.isEmpty = true
+    · simp only [he, if_true]; exact ⟨by first | rfl | trivial, hd⟩
+    · simp only [he, Bool.false_eq_true, if_false]
+      have h0 := forRecs_silent (resetOne call.pull) (fun r hr => resetOne_silent call.pull r hr) c.recorders hd
+      by_cases hk : kwCollision call = true
+      · simp only [hk, if_true]; exact ⟨by first | rfl | trivial, h0.2.2⟩
+      · simp only [hk, Bool.false_eq_true, if_false]
+        have h1 := forRecs_silent (stageArgsOne call.method call.kwargs)
+          (fun r hr => stageArgsOne_silent call.method call.kwargs r hr) _ h0.2.2
+        exact ⟨h1.1, h1.2.2⟩
+  rcases hp : prologue c call with ⟨recs1, ev1, e1⟩
+  rw [hp] at hpro
+  simp only at hpro
+  obtain ⟨hev1, hq1⟩ := hpro
+  subst hev1
+  cases e1 with
+  | some e => rw [runOp_unfold_err v c b64 call core recs1 [] e hp]
+  | none =>
+    rw [runOp_unfold_ok v c b64 call core recs1 [] hp]
+    obtain ⟨hev, hq⟩ := tryBody_silent v { c with recorders := recs1, stats := c.stats.startTimer call.method } b64 core
+      call.listener hq1
+    exact finallyPart_silent v call _ hev hq
+
 /-! ### inputs of the negation witnesses in Props/C19.lean -/
 
 /-- a core that succeeds: request built, HTTP 200, reply parsed to `ret` -/
